@@ -227,10 +227,11 @@ static void execOp(const Group& T, const Op& o) {
     }
     case K_EXPECT_LEAKS: EXPECT_N_LEAKS((size_t)o.a); break;
     case K_IGNORE_LEAKS: IGNORE_ALL_LEAKS_IN_TEST(); break;
-    case K_DIE_SIGNAL: if (PS.inChild) { fflush(0); raise((int)o.a); } break;
+    case K_DIE_SIGNAL: if (PS.inChild) {      // whatever disposition or mask the simulator's own parent handed down (nohup, background job): the child dies by the default action
+        fflush(0); signal((int)o.a, SIG_DFL); sigset_t one; sigemptyset(&one); sigaddset(&one, (int)o.a); sigprocmask(SIG_UNBLOCK, &one, 0); raise((int)o.a); } break;
     case K_DIE_EXIT: if (PS.inChild) _exit((int)o.a); break;
     case K_DIE_ABORT: if (PS.inChild) { signal(SIGABRT, SIG_DFL); abort(); } break;
-    case K_DIE_STOP: if (PS.inChild) raise(SIGSTOP); break;
+    case K_DIE_STOP: if (PS.inChild) raise(SIGSTOP); break;       // (SIGSTOP can be neither ignored nor blocked)
     case K_PLUGIN_INSTALL: { size_t p = (size_t)o.a; if (p < RS.pluginObjs.size() && !RS.pluginInstalled[p]) { RS.reg->installPlugin(RS.pluginObjs[p]); RS.pluginInstalled[p] = 1; } break; }
     case K_PLUGIN_REMOVE: { size_t p = (size_t)o.a; if (p < RS.pluginObjs.size()) { if (!RS.pluginInstalled[p]) fired("remove_plugin_name_that_is_not_installed"); RS.reg->removePluginByName(RS.pluginObjs[p]->getName()); RS.pluginInstalled[p] = 0; } break; }   // a name that is not installed: nothing may change
     case K_PTR_SET: UT_PTR_SET(g_tgt[o.a % N_TARGETS], (void*)&g_val[o.b % N_VALUES]); break;
@@ -287,7 +288,7 @@ public:
                 result.addFailure(TestFailure(&test, "plugin.cpp", (size_t)o.d, o.s2.c_str()));
             } else if (o.kind == K_DIE_SIGNAL || o.kind == K_DIE_EXIT || o.kind == K_DIE_ABORT) {     // the child dies inside a plugin action (separate-process mode)
                 pushEv(E_OP, t, phase, (int)i, pidx);
-                if (PS.inChild) { if (o.kind == K_DIE_SIGNAL) { fflush(0); raise((int)o.a); } else if (o.kind == K_DIE_EXIT) _exit((int)o.a); else { signal(SIGABRT, SIG_DFL); abort(); } }
+                if (PS.inChild) { if (o.kind == K_DIE_SIGNAL) { fflush(0); signal((int)o.a, SIG_DFL); sigset_t one; sigemptyset(&one); sigaddset(&one, (int)o.a); sigprocmask(SIG_UNBLOCK, &one, 0); raise((int)o.a); } else if (o.kind == K_DIE_EXIT) _exit((int)o.a); else { signal(SIGABRT, SIG_DFL); abort(); } }
             } else pushEv(E_OP, t, phase, (int)i, pidx);
         }
     }
